@@ -260,6 +260,53 @@ def gen_manylines(rng):
                 t_hint=(t0, t0 + 30 * nl + ride))
 
 
+def gen_walkboard(rng):
+    """an optimal arrival-time journey that WALKS from N to B and boards there, where B already carries a reverse label at least as
+    late that does not come from a boarding at B: (a) B is itself an egress stop (long walk to the destination) while the boarded trip
+    goes on to a nearer egress stop E; (b) B was labelled through its own footpath B -> M to a later boarding at M, and N has no such
+    footpath. A scan that stops relaxing the neighbours of a stop whose own label is already good never labels N (seeded change C04-r5)."""
+    A, N, B, E, M, X = 0, 1, 2, 3, 4, 5
+    ns = 6
+    foot = {(s, s): (0, 0) for s in range(ns)}
+    w = rng.choice([30, 60, 120, 240])
+    foot[(N, B)] = (w, 80)
+    if rng.random() < 0.3: foot[(B, N)] = (w + rng.choice([0, 60]), 80)
+    paths, trips = [], []
+    ids = list(range(1, 30)); rng.shuffle(ids)
+
+    def add(stops, times):
+        paths.append((len(paths), stops, [rng.randint(1, 50) for _ in stops[:-1]]))
+        trips.append((len(paths) - 1, 0, ids.pop(), list(times), list(times), [1] * len(stops), [1] * len(stops)))
+    mw = rng.choice([0, 60, 180])
+    t0 = 3000 + 60 * rng.randint(0, 10)
+    aN = t0 + rng.choice([200, 300])
+    add([A, N], [t0, aN])                                              # feeder to N
+    if rng.random() < 0.4: add([A, N], [t0 - 900, aN - 900])           # an earlier feeder (the answer a wrong scan may fall back to)
+    depB = aN + w + mw + rng.choice([0, 1, 60, 300])
+    ride = rng.choice([240, 400])
+    add([B, E], [depB, depB + ride])                                   # the trip boarded after the walk
+    shape_b = rng.random() < 0.5
+    eE = rng.choice([0, 60])
+    egr = [(E, eE, 7)]
+    arrT = depB + ride + eE + rng.choice([0, 30, 200])
+    if shape_b:
+        wm = rng.choice([30, 60])
+        foot[(B, M)] = (wm, 30)
+        depM = depB + rng.choice([60, 200, 400])                       # B's label through B -> M is later than depB - mw
+        add([M, X], [depM + wm + mw, depM + wm + mw + 200])
+        egr.append((X, rng.choice([0, 30]), 9))
+        arrT = max(arrT, depM + wm + mw + 200 + 30 + rng.choice([0, 60]))
+    else:
+        eB = rng.choice([600, 900, 1100])                              # B is an egress stop with a long walk: label arrT - eB >= depB - mw
+        arrT = max(arrT, depB - mw + eB + rng.choice([0, 1, 100]))
+        egr.append((B, eB, 11))
+    lines = [(0, 0) for _ in paths]
+    scen = [dict(services=[0], onlyLines=[], exceptLines=[], onlyAgencies=[], exceptAgencies=[], onlyModes=[], exceptModes=[])]
+    return dict(ns=ns, nag=1, nsv=1, foot=[(a, b, t, x) for (a, b), (t, x) in foot.items()], lines=lines, paths=paths,
+                trips=trips, scenarios=scen, acc=[(A, rng.choice([0, 60]), 5)], egr=sorted(egr),
+                cacheall=0, profile="walkboard", base_hour=0, mw_hint=mw, t_hint=(t0, arrT))
+
+
 def gen_closer(rng):
     """a trip with two candidate alighting stops P (earlier, shorter onward walk) and Q (later, longer
     walk): exercises the rule that moves a trip's exit to a "closer" stop (reverse_calculation.cpp:89-105)"""
@@ -418,6 +465,8 @@ def gen_dataset(rng, stream):
         return gen_parallel(rng)
     if stream == "closer":
         return gen_closer(rng)
+    if stream == "walkboard":
+        return gen_walkboard(rng)
     if stream == "manylines":
         return gen_manylines(rng)
     return gen_network(rng, stream)
@@ -441,6 +490,10 @@ def gen_query(rng, d, forward=None, cap=None, alt=False, limits=True):
     elif prof == "closer":
         lo, hi = d["t_hint"]
         t = rng.choice([lo - 600, lo - 60, hi, hi + 3000])
+    elif prof == "walkboard":
+        lo, hi = d["t_hint"]
+        if forward is None: forward = rng.random() < 0.25
+        t = rng.choice([lo - 600, lo - 60]) if forward else rng.choice([hi, hi, hi + 1, hi + 60, hi + 600])
     elif prof == "twoends":
         lo, hi = d["t_hint"]
         t = rng.choice([lo, lo + 600, lo + 1200, lo + 1500, hi - 1500, hi - 900, hi, hi + 600])
@@ -463,8 +516,10 @@ def gen_query(rng, d, forward=None, cap=None, alt=False, limits=True):
         tt = 1 if t >= d["t_hint"][1] else 0
     q = dict(scenario=rng.randrange(len(d["scenarios"])), time_of_trip=t, time_type=tt,
              min_waiting_time=rng.choice([0, 60, 180]))
-    if prof == "closer" and rng.random() < 0.7:
+    if prof in ("closer", "walkboard") and rng.random() < 0.7:
         q["min_waiting_time"] = d["mw_hint"]
+    if prof == "walkboard":
+        limits = limits and rng.random() < 0.3      # mostly default maxima: the long egress walk of shape (a) must stay admissible
     cap_disabled_by_caller = cap is not None and cap <= 0      # C03 C05 C08 quantify over requests WITHOUT the cap: never override
     if cap is None:
         cap = rng.choice([0, 0, 0, 120, 300, 900, None])
